@@ -49,7 +49,7 @@ func libClosure(p *an.Prog, roots ...*ssa.Function) map[*ssa.Function][]*ssa.Fun
 }
 
 func C11(p *an.Prog, r *an.Report) {
-	r.Explanation = "Structural necessary conditions of the mapping codec's canonical form: (M1) every path through GoMapToMapping/ValuesToMapping sorts the pairs before the Mapping is built, with a comparator that orders by `<` on the decoded keys of elements i and j; (M2) Mapping.Data writes as size field the length of the very payload it appends next; (M3) ValuesToMapping rejects exactly computed sizes above 65,535 and encodes that same computed size, string constructors reject above 255 (C12); (M4/M6) nothing reachable from Data or from ReadMapping iterates a Go map or sorts, so serialisation follows stored order and parsing preserves wire order; (M5) the reader's 'enough bytes for another pair' threshold is not larger than the smallest pair the writer can emit, and a non-empty tail shorter than a pair is reported as an error rather than dropped. map→bytes→map identity as a value equality is not decided. M3 also requires the guarded size to accumulate len() of the encoded strings; M5 also refutes, per remaining length 4..8, that no content is ever accepted by the reader's pair predicate."
+	r.Explanation = "Structural necessary conditions of the mapping codec's canonical form: (M1) every path through GoMapToMapping/ValuesToMapping sorts the pairs before the Mapping is built, with a comparator that orders by `<` on the decoded keys of elements i and j; (M2) Mapping.Data writes as size field the length of the very payload it appends next; (M3) ValuesToMapping rejects exactly computed sizes above 65,535 and encodes that same computed size, string constructors reject above 255 (C12); (M4/M6) nothing reachable from Data or from ReadMapping iterates a Go map or sorts, so serialisation follows stored order and parsing preserves wire order; (M5) the reader's 'enough bytes for another pair' threshold is not larger than the smallest pair the writer can emit, and a non-empty tail shorter than a pair is reported as an error rather than dropped. map→bytes→map identity as a value equality is not decided. M3 also requires the guarded size to accumulate len() of the encoded strings; M5 also refutes, per remaining length 4..8, that no content is ever accepted by the reader's pair predicate. M7: every key/value string the reader yields on success originates from data.ReadI2PString only."
 	r.Rule = "one obligation per clause and site"
 	r.Trusted = []string{"sort/slices package semantics", "go/ssa"}
 	need := func(name string) *ssa.Function {
